@@ -111,8 +111,16 @@ def node_loop_ok(sc, n, node):
     from ..loops import loop_context
     lc = loop_context(sc, n, node)
     for li in reversed(lc):
-        if li.kind == "N+final" and isinstance(li.var, str):
+        if li.kind in ("N+final", "final+N") and isinstance(li.var, str):
             return li.var
+    return None
+
+
+def node_loop_kind(sc, n, node):
+    from ..loops import loop_context
+    for li in reversed(loop_context(sc, n, node)):
+        if li.kind in ("N+final", "final+N"):
+            return li.kind
     return None
 
 
@@ -304,3 +312,58 @@ def r10_7(ctx):
             ok = nn.poly(st.value) == Poly.atom(off) + expected("%s.nnz()" % e)
     ctx.check(ok, "get_ranges_dict advances the offset by the symbol's number of entries", detail="rows of a later symbol overlap / are shifted (guess for one algebraic lands in another)",
               expected="offset += e.nnz() after recording the range", found="; ".join(ast.unparse(d.stmt) for d in upd), fi=f)
+
+
+@rule("R10.8", min_instances=3, desc="the final-node pass of the per-node application never overrides an interval quantity: for symbols that do not exist at the final node the evaluator aliases k=-1 to the last interval, so that pass must come first (or be skipped)")
+def r10_8(ctx):
+    """Necessary condition for 'expressions of time evaluated at ... interval start times for controls':
+    eval_at_control(stage, u, -1) is U[-1] = U[N-1] (slot table of _eval_at_control), and the value handed to it in the
+    final-node pass is the column of the final node.  If that pass runs after k = N-1 the last interval's control /
+    per-interval variable starts at the guess evaluated at tf."""
+    P = ctx.prog
+    # 1. the aliasing fact, read from the evaluator's own slot table
+    e = P.own_method("SamplingMethod", "_eval_at_control")
+    k = e.params[3]
+    from .. import slots as S
+    calls = S.expr_apply_calls(e)
+    alias = {}
+    if len(calls) == 1:
+        sce = ctx.scope(e)
+        from ..ceval import ceval, Unknown, specialise
+        for kw in calls[0].keywords:
+            if kw.arg not in ("u", "p_control", "v_control"):
+                continue
+            env = {k: -1, "len(self.U)": 3, "self.N": 3}
+            try:
+                v = specialise(kw.value, env, sce)
+                idx = v.slice if isinstance(v, ast.Subscript) else (v.args[-1] if isinstance(v, ast.Call) and v.args else None)
+                # Python's own indexing: element -1 of a per-interval list is the entry of interval N-1
+                alias[kw.arg] = (ast.unparse(v), ceval(idx, env, sce) if idx is not None else None)
+            except Unknown:
+                alias[kw.arg] = None
+    aliased = sorted(s for s, t in alias.items() if t is not None and t[1] in (-1, 2))
+    ctx.check("u" in alias, "_eval_at_control resolves the control at the final-node alias", detail="slot table", expected="u = self.U[-1] for k == -1", found=str(alias), fi=e, sample={"alias": alias})
+    if "u" not in aliased:
+        # the evaluator no longer aliases the final node to the last interval: nothing to order
+        ctx.ok("final-node alias not present for controls", fi=e)
+        return
+    for cname in ("SamplingMethod", "DirectCollocation"):
+        f = P.own_method(cname, "set_initial")
+        sc = ctx.scope(f)
+        n = ctx.norm(f)
+        sets = [c for c in walk_no_nested(f.node) if is_call_to(c, "set_initial", "opti") and len(c.args) >= 2 and isinstance(c.args[0], ast.Name) and ast.unparse(c.args[1]) == "value_k"]
+        for c in sets:
+            kind = node_loop_kind(sc, n, c)
+            # accepted: the alias pass first; or the alias pass skipped for quantities without a final-node instance
+            gs = [ast.unparse(t) for t, p in sc.path_guards(c)]
+            skipped = any("-1" in g and ("include_last" in g or "states" in g or "is_valid" in g) for g in gs)
+            ctx.check(kind == "final+N" or skipped, "%s.set_initial: interval quantities keep the guess of their own interval" % cname,
+                      detail="the final-node pass (k=-1, aliased to the last interval for controls and per-interval variables) runs after k=N-1 and overwrites U[N-1] with the guess at tf",
+                      expected="for k in [-1]+list(range(N)) (alias pass first, the interval's own column wins)", found="loop order %s" % kind, fi=f, node=c,
+                      sample={"method": cname, "order": kind})
+
+
+@rule("R10.9", min_instances=2, desc="guesses before and after the first transcription agree: the promoted horizon starts from the user's own guess for ocp.T / ocp.t0 when one was given (R11.7, shared with C11)")
+def r10_9(ctx):
+    from .c11 import r11_7
+    r11_7(ctx)
